@@ -492,6 +492,16 @@ func (vc *FnVC) step(fr *frame, st *state, b *ssa.BasicBlock, ins ssa.Instructio
 		a := fr.get(vc, x.Addr)
 		v := fr.get(vc, x.Val)
 		vc.nilCheck(fr, st, a, "store", x)
+		if a.lv != nil && a.lv.opaqueBase != nil {
+			vc.havocLV(st, a.lv.opaqueBase)
+			return
+		}
+		if p, ok := fr.prov[x.Addr]; ok && a.lv != nil && a.lv.anon != "" {
+			vc.lockCheck(fr, st, p, true, x)
+			vc.storeLV(st, p, vc.term(fr, st, v))
+			return
+		}
+		vc.lockCheck(fr, st, vc.deref(a), true, x)
 		vc.storeLV(st, vc.deref(a), vc.term(fr, st, v))
 	case *ssa.UnOp:
 		vc.unop(fr, st, x)
@@ -502,7 +512,13 @@ func (vc *FnVC) step(fr *frame, st *state, b *ssa.BasicBlock, ins ssa.Instructio
 		vc.nilCheck(fr, st, p, "field:"+fieldName(x.X.Type(), x.Field), x)
 		pt := x.X.Type().Underlying().(*types.Pointer).Elem()
 		if isSyncType(pt) || vc.sorts.StructOf(pt).opaque {
-			fr.vals[x] = val{lv: &lval{anon: vc.freshConst("opaquefield", S.SortOf(x.Type().(*types.Pointer).Elem())), rtyp: x.Type().(*types.Pointer).Elem(), typ: x.Type().(*types.Pointer).Elem()}, typ: x.Type()}
+			ft := x.Type().(*types.Pointer).Elem()
+			nlv := &lval{anon: vc.freshConst("opaquefield", S.SortOf(ft)), rtyp: ft, typ: ft}
+			vc.assume("true", S.RangeOf(ft, nlv.anon))
+			if !isSyncType(pt) {
+				nlv.opaqueBase = vc.deref(p)
+			}
+			fr.vals[x] = val{lv: nlv, typ: x.Type()}
 			return
 		}
 		fr.vals[x] = val{lv: vc.fieldAddr(p, x.Field), typ: x.Type()}
@@ -804,6 +820,7 @@ func (vc *FnVC) unop(fr *frame, st *state, x *ssa.UnOp) {
 	case token.MUL:
 		vc.nilCheck(fr, st, v, "load", x)
 		lv := vc.deref(v)
+		vc.lockCheck(fr, st, lv, false, x)
 		t := vc.loadLV(st, lv)
 		r := fr.set(vc, x, t)
 		vc.assume("true", S.RangeOf(x.Type(), r.t))
@@ -1333,4 +1350,32 @@ func (vc *FnVC) frameFact(a, b string, objs []string, alloc string) string {
 	}
 	ex = append(ex, fmt.Sprintf("(<= %s %s)", r, alloc))
 	return fmt.Sprintf("(forall ((%s Int)) (! (=> (and %s) (= (select %s %s) (select %s %s))) :pattern ((select %s %s))))", r, strings.Join(ex, " "), a, r, b, r, a, r)
+}
+
+// lockCheck: an access to a field declared "guardedby" needs the guarding mutex held (write-held for stores),
+// unless the object was allocated by this very function (not yet shared).
+func (vc *FnVC) lockCheck(fr *frame, st *state, lv *lval, write bool, ins ssa.Instruction) {
+	if lv == nil || !strings.HasPrefix(lv.heap, "H:") || len(vc.eng.db.Guarded) == 0 {
+		return
+	}
+	key := strings.TrimPrefix(lv.heap, "H:")
+	mf, ok := vc.eng.db.Guarded[key]
+	if !ok {
+		return
+	}
+	i := strings.LastIndex(key, ".")
+	mh := "H:" + key[:i] + "." + mf
+	vc.eng.regHeap(mh, heapDesc{kind: "raw", raw: "(Array Int Int)"})
+	held := fmt.Sprintf("(select %s %s)", vc.hget(st, mh), lv.ref)
+	cond := fmt.Sprintf("(not (= %s 0))", held)
+	what := "read"
+	if write {
+		cond = fmt.Sprintf("(= %s 2)", held)
+		what = "write"
+	}
+	entryAlloc := "alloc0"
+	if vc.old != nil {
+		entryAlloc = vc.old.alloc
+	}
+	vc.oblige("lock-held", what+":"+key, st.reach, fmt.Sprintf("(or (> %s %s) %s)", lv.ref, entryAlloc, cond), []string{"C16"}, vc.posOf(ins))
 }
